@@ -77,6 +77,7 @@ type Interp struct {
 	snapDisabled bool
 	elapsed0     int64
 	buildPkg   func(*ssa.Package)
+	race       *raceDet
 }
 
 func (in *Interp) resetPath() {
@@ -502,6 +503,9 @@ func (in *Interp) visit(fr *frame, instr ssa.Instruction) continuation {
 	case *ssa.Store:
 		addr := fr.get(instr.Addr)
 		in.nilCheck(fr, addr, instr)
+		if in.race != nil {
+			in.raceLoc(addr, true, fr.site(instr))
+		}
 		store(addr, fr.get(instr.Val))
 	case *ssa.If:
 		c := fr.get(instr.Cond).(*Term)
